@@ -190,10 +190,10 @@ def oracle(c):
     want = float((S * P).sum())
     for v in variants(c['price'], R, n):
       p = tg.py_price(v)
-      dc = float(d.cost(s, p)) - c0
+      dc = float(core.maybe_stale(c, d.cost, s, p)) - c0
       if abs(dc - want) > 1e-7 * (1 + abs(want) + abs(c0)):
         return 'cost(s,p) - cost(s,0) = %r but sum(s*p) = %r for the %s price %s' % (dc, want, v[0], core.jsonable(v[1]))
-      dg = np.array(d.deriv(s, p), dtype=float).reshape(R, n) - g0
+      dg = np.array(core.maybe_stale(c, d.deriv, s, p), dtype=float).reshape(R, n) - g0
       if not np.all(np.abs(dg - P) <= 1e-7 * (1 + np.abs(P) + np.abs(g0))):
         k = np.unravel_index(np.argmax(np.abs(dg - P)), P.shape)
         return 'deriv(s,p) - deriv(s,0) is %r at %s where the price is %r (%s price)' % (float(dg[k]), tuple(int(x) for x in k), float(P[k]), v[0])
